@@ -99,6 +99,62 @@ macro_rules! with_view {
     }};
 }
 
+/// same as `with_view!` without the unsized `[T]` backend (the `ts_*` extension traits need `Self: Sized`)
+#[macro_export]
+macro_rules! with_view_sized {
+    ($b:expr, $v:expr, $filler:expr, $view:ident => $body:expr) => {{
+        let __b: &str = $b;
+        if __b == "vec" || __b.is_empty() {
+            let $view = &$v;
+            let __r = $body;
+            __r
+        } else if __b == "arc" {
+            let __a = std::sync::Arc::new($v.clone());
+            let $view = &__a;
+            let __r = $body;
+            __r
+        } else if let Some(k) = __b.strip_prefix("deque") {
+            let __d = $crate::backends::deque_rot(&$v, k.parse().unwrap_or(0));
+            let $view = &__d;
+            let __r = $body;
+            __r
+        } else if let Some(k) = __b.strip_prefix("arcdeque") {
+            let __d = std::sync::Arc::new($crate::backends::deque_rot(&$v, k.parse().unwrap_or(0)));
+            let $view = &__d;
+            let __r = $body;
+            __r
+        } else if __b == "nd" {
+            let __a = $crate::backends::Array1::from_vec($v.clone());
+            let $view = &__a;
+            let __r = $body;
+            __r
+        } else if __b == "ndvm" {
+            let mut __a = $crate::backends::Array1::from_vec($v.clone());
+            let __vm = __a.view_mut();
+            let $view = &__vm;
+            let __r = $body;
+            __r
+        } else if let Some(st) = __b.strip_prefix("ndv") {
+            let st: isize = st.parse().unwrap_or(1);
+            let __base = $crate::backends::nd_base(&$v, st, $filler);
+            let __vw = __base.slice($crate::backends::s![..;st]);
+            let $view = &__vw;
+            let __r = $body;
+            __r
+        } else if __b == "arr" {
+            macro_rules! __arr { ($n:literal) => {{ let __a: [_; $n] = $v.clone().try_into().ok().unwrap(); let $view = &__a; let __r = $body; __r }} }
+            match $v.len() {
+                0 => __arr!(0), 1 => __arr!(1), 2 => __arr!(2), 3 => __arr!(3), 4 => __arr!(4),
+                5 => __arr!(5), 6 => __arr!(6), 7 => __arr!(7), 8 => __arr!(8),
+                _ => { let $view = &$v; let __r = $body; __r },
+            }
+        } else {
+            panic!("unknown backend {}", __b)
+        }
+    }};
+}
+
+
 /// same as `with_view!` restricted to backends whose view type is `'static` (needed by
 /// `rolling2_custom`, whose callback bound is higher-ranked over the slice lifetime)
 #[macro_export]
@@ -150,3 +206,6 @@ macro_rules! with_view_static {
 pub const BACKENDS_SMALL: &[&str] = &["vec", "slice", "arr", "arc", "deque0", "deque1", "deque3", "arcdeque2", "nd", "ndvm", "ndv1", "ndv2", "ndv3", "ndv-1", "ndv-2"];
 
 pub const BACKENDS_STATIC: &[&str] = &["vec", "slice", "arr", "arc", "deque0", "deque1", "deque3", "arcdeque2", "nd"];
+
+/// backends on which the `ts_*` / mapping extension traits are callable (all but the unsized slice)
+pub const BACKENDS_SIZED: &[&str] = &["vec", "arr", "arc", "deque0", "deque1", "deque3", "arcdeque2", "nd", "ndvm", "ndv1", "ndv2", "ndv3", "ndv-1", "ndv-2"];
